@@ -74,6 +74,10 @@ chk("C19", "fault_enumeration",
     "Store handlers with restart injection: per corpus (group values with '|', quotes, unicode; negative and fractional numbers) over 2-6 fractions a dry run counts the durable writes of one asynchronous search; then, from pristine copies in fresh processes, the store crashes after the k-th durable write, rename or sync for every k and before/after the request is marked done; after the restart the search is polled until done and its IDs, histogram and per-bin aggregation summaries are compared with the synchronous search of the restarted store, and the IDs with the model. The proxy library (1-3 shards) and the proxy's public StartAsyncSearch/FetchAsyncSearchResult handlers (vs ComplexSearch and the model) are driven with the same requests without restarts.",
     "No ingestion between start and finish; a request whose start call had not returned before the crash may be lost (tallied); rendered buckets compared for aggregations without interval only.", "crash-point enumeration over persisted partial results + differential comparison async vs sync vs model", "DESIGN.md 2/C19")
 
+chk("C07", "exploration",
+    "Concurrent runs against a real store built with the Go race detector: maintenance loop every 2-5 ms, few-KiB fractions (dozens of rotations and background seals per run), small cache with constant eviction, 2-8 writers with disjoint documents and 2-8 readers doing search -> immediate fetch (with and without hints), seeded delays at hooks between the index-update steps, the seal/rotate hand-over and the cache critical sections, GOMAXPROCS 2/4/16. Readers assert online that every returned ID was submitted, satisfies query and range, is strictly ordered and fetches to exactly its bytes; any error, panic (dead worker) or race report is a violation. After the writers finish, a battery of searches/histograms/fetches must equal the model while seals may still run, and again after stop and reopen.",
+    "Schedules are sampled; the evidence counts rotations and seals that overlapped reader calls and hook hits per point. A stall is inconclusive (watchdog + goroutine dump).", "Go race detector + online reader assertions + quiescent differential vs model under seeded hook delays", "DESIGN.md 2/C07")
+
 def main():
     claimed = sorted(CHECKS)
     na = [{"property_id": p, "reason": "check not built yet in this session (planned; see DESIGN.md section 2)"} for p in ALL if p not in CHECKS]
